@@ -383,3 +383,18 @@ Definition check_key_cmds : bool :=
   && gen_ret (bs "key id") (bs "LoadKeyDefaults")
   && opt_strs_eqb (args_of_call (bs "key layout") (bs "LoadKeyDefaults")) [bs "args[0]"]
   && gen_ret (bs "key layout") (bs "LoadKeyDefaults").
+
+(* the repeatable list flags take each occurrence verbatim (pflag StringArray); a StringSlice
+   flag would split a value at commas before it reaches the library *)
+Definition flag_kind_is (cmd long : str) (kinds : list str) : bool :=
+  match filter (fun f => str_eqb (cfg_long f) long) (flags_of cmd) with
+  | [f] => mem (cfg_kind f) kinds
+  | _ => false
+  end.
+Definition array_kinds : list str := [bs "StringArrayVarP"; bs "StringArrayVar"].
+Definition check_list_flags_verbatim : bool :=
+  forallb (fun p => flag_kind_is (fst p) (snd p) array_kinds)
+    [ (bs "run", bs "materials"); (bs "run", bs "products"); (bs "run", bs "lstrip-paths"); (bs "run", bs "exclude");
+      (bs "record start", bs "materials"); (bs "record start", bs "lstrip-paths"); (bs "record start", bs "exclude");
+      (bs "record stop", bs "products"); (bs "record stop", bs "lstrip-paths"); (bs "record stop", bs "exclude");
+      (bs "match-products", bs "path"); (bs "match-products", bs "exclude"); (bs "match-products", bs "lstrip-paths") ].
